@@ -3,28 +3,22 @@ import MythVerif.Proofs.WsQueueTsoTac
 namespace MythVerif.WsqTso
 open MythVerif.Wsq
 
-set_option maxHeartbeats 4000000 in
 theorem f_O_ptr_po5c (s : St) (i0 x0) (rest : List Sto) (t r) : Inv s → s.opc = .po5c t r →
     s.bufO = .ptr i0 x0 :: rest → Inv (applySto { s with bufO := rest } (.ptr i0 x0)) := by
   intro h hpc hb
   simp only [applySto]
-  cases h; simp only [hpc, ownerLocked, carry, resetting, ownerFlight] at *
-  tso_finish3
+  tso_fastO h hpc [po5c]
 
-set_option maxHeartbeats 4000000 in
 theorem f_O_ptr_po5d (s : St) (i0 x0) (rest : List Sto) (r) : Inv s → s.opc = .po5d r →
     s.bufO = .ptr i0 x0 :: rest → Inv (applySto { s with bufO := rest } (.ptr i0 x0)) := by
   intro h hpc hb
   simp only [applySto]
-  cases h; simp only [hpc, ownerLocked, carry, resetting, ownerFlight] at *
-  tso_finish3
+  tso_fastO h hpc [po5d]
 
-set_option maxHeartbeats 4000000 in
 theorem f_O_ptr_po6 (s : St) (i0 x0) (rest : List Sto) (r) : Inv s → s.opc = .po6 r →
     s.bufO = .ptr i0 x0 :: rest → Inv (applySto { s with bufO := rest } (.ptr i0 x0)) := by
   intro h hpc hb
   simp only [applySto]
-  cases h; simp only [hpc, ownerLocked, carry, resetting, ownerFlight] at *
-  tso_finish3
+  tso_fastO h hpc [po6]
 
 end MythVerif.WsqTso
